@@ -41,6 +41,9 @@ def queries(U, dag):
         for n in singles:
             for k in (1, 2, 3):
                 qs.append(("kcuts", (n, k)))
+        # histories on ONE circuit / ONE argument object: a query, an in-place edit that keeps the node and edge counts, the query
+        # again; two queries with the same set object
+        qs.append(("topo_sort_after_edit", None))
     else:
         qs += [("is_cyclic", None), ("topo_sort", None), ("levelize", None), ("fanin_depth", U[0]), ("fanout_depth", U[-1]), ("fanout_depth", [U[0], U[1]])]
         for a in [U[0], [U[0], U[1]], [U[1], U[0]], [U[-1], U[0], U[1]]]:
@@ -66,10 +69,15 @@ def all_cases(ctx):
             sb = 10
             for k in [int(format(k, f"0{sb}b")[::-1], 2) for k in range(1 << sb)]:
                 cs.append(((True, 6, q[0], repr(q[1]), k), (True, U6, q, sb, k)))
+    # two queries with ONE set object (`ends = c.endpoints(sel); starts = c.startpoints(sel)`): the paths of both queries multiply, so
+    # these run on all DAGs over 3 names (thorough: 4)
+    U3 = uni(3 if ctx.quick else 4)
+    for q in (("startpoints_after_endpoints", [U3[0], U3[1]]), ("endpoints_after_startpoints", [U3[1], U3[2]]), ("startpoints_after_endpoints", [U3[-1]]), ("endpoints_after_startpoints", [U3[0]])):
+        cs.append(((True, len(U3), q[0], repr(q[1]), 0), (True, U3, q, 0, 0)))
     for dag, n in ((True, N), (False, M)):
         U = uni(n)
         for q in queries(U, dag):
-            sb = (5 if ctx.quick else 8) if q[0] in ("endpoints", "startpoints", "levelize") else (0 if ctx.quick else 4)
+            sb = (5 if ctx.quick else 8) if q[0] in ("endpoints", "startpoints", "levelize", "startpoints_after_endpoints", "endpoints_after_startpoints", "topo_sort_after_edit") else (0 if ctx.quick else 4)
             for k in [int(format(k, f"0{sb}b")[::-1], 2) if sb else 0 for k in range(1 << sb)]:
                 cs.append(((dag, n, q[0], repr(q[1]), k), (dag, U, q, sb, k)))
     return cs
@@ -88,6 +96,27 @@ def make_op(q):
         return lambda c: set(c.reconvergent_fanout_nodes())
     if name == "topo_sort":
         return lambda c: list(c.topo_sort())
+    if name == "topo_sort_after_edit":
+        def edit(c):
+            first = list(c.topo_sort())
+            u, v = first[0], first[1]
+            if v in c.fanout(u):  # reverse the edge between the first two nodes of the order (node and edge counts stay the same)
+                c.disconnect(u, v)
+                try:
+                    c.connect(v, u)
+                except ValueError:
+                    pass  # u cannot take a fan-in: the graph then simply has one edge fewer
+            return list(c.topo_sort())
+        return edit
+    if name in ("startpoints_after_endpoints", "endpoints_after_startpoints"):
+        def twice(c):
+            sel = set(a)  # ONE set object for both queries, as in `ends = c.endpoints(sel); starts = c.startpoints(sel)`
+            if name == "startpoints_after_endpoints":
+                c.endpoints(sel)
+                return c.startpoints(sel)
+            c.startpoints(sel)
+            return c.endpoints(sel)
+        return twice
     if a is None:
         return lambda c: getattr(c, name)()
     return lambda c: getattr(c, name)(arg())
@@ -115,6 +144,15 @@ def run(ctx):
         cache = {}
 
         def posts(pre_, post, out, names, c, q=q, U=U, dag=dag, cache=cache):
+            if q[0] == "topo_sort_after_edit":
+                # the order returned AFTER the edit must be a topological order of the edited graph (post-state)
+                if out.kind != "ok":
+                    return [("topo-after-edit", z3.BoolVal(False), "query:topo_sort:raises", f"topo_sort / levelize / the edit raised {out.exc}: {out.ret}")]
+                order = list(out.ret)
+                okp = sorted(order) == sorted(U)
+                pos = {n: i for i, n in enumerate(order)}
+                f = z3.And([z3.BoolVal(okp)] + [z3.Implies(post.edge(u, v), z3.BoolVal(okp and pos.get(u, 0) < pos.get(v, 0))) for u in U for v in U if u != v])
+                return [("topo-after-edit", f, "query:topo_sort:stale-after-edit", f"after reversing an edge in place topo_sort returned {order}: not a topological order of the edited graph")]
             return _posts(pre_, post, out, names, c, q, U, dag, cache) + no_write(c, q[0])
 
         def _posts(pre_, post, out, names, c, q=q, U=U, dag=dag, cache=cache):
@@ -144,6 +182,7 @@ def norm(k):
 
 def spec(q, U, dag, S, out, cache):
     name, a = q
+    name = {"startpoints_after_endpoints": "startpoints", "endpoints_after_startpoints": "endpoints"}.get(name, name)
     edge = lambda u, v: S.edge(u, v) if u != v else z3.BoolVal(False)
     idx = {n: i for i, n in enumerate(U)}
     if "R" not in cache:
